@@ -206,7 +206,7 @@ class Model:
             if k[0] == 'sub':
                 out += self.flat_fields(k[1], prefix + f['name'] + '.')
             else:
-                out.append({'path': prefix + f['name'], 'kind': k, 'hasInit': f['hasInit'], 'init': f['init'], 'owner': cls})
+                out.append({'path': prefix + f['name'], 'kind': k, 'hasInit': f['hasInit'], 'init': f['init'], 'owner': cls, 'dtype': f['dtype']})
         return out
 
     def find_method(self, cls, name):
